@@ -837,6 +837,15 @@ func genViews(c *core.Ctx) {
 				inputs = append(inputs, b)
 			}
 		}
+		if view == "IP6" {
+			// RFC 8200 packets whose 16-bit payload length makes PayloadLen+40 pass 65535: the length test of
+			// IsValid must not be computed in uint16 (found by the IsValid translator, C01ValidTie.ip6_tie)
+			for _, pl := range []int{65495, 65496, 65535} {
+				b := make([]byte, 40+pl)
+				b[0], b[4], b[5], b[6], b[7] = 0x60, byte(pl>>8), byte(pl), 59, 64
+				inputs = append(inputs, b)
+			}
+		}
 		for _, in := range inputs {
 			h := core.Hex(in)
 			add(c, "valid-"+view, "valid "+view+" "+h)
